@@ -180,9 +180,18 @@ func userRune(ch rune, endOnly bool) parsley.Parser {
 		if rp, ok := tr.ReadRune(pos, ch); ok {
 			return &userNode{tok: "U" + string(ch), val: string(ch), pos: pos, rpos: rp, end: rp, endOnly: endOnly}, data.EmptyIntSet, nil
 		}
+		if endOnly {
+			// a user error whose cause is a value of a type that cannot be compared with ==
+			return nil, data.EmptyIntSet, parsley.NewError(pos, expectedOneOf{[]string{"user " + string(ch)}})
+		}
 		return nil, data.EmptyIntSet, parsley.NewError(pos, nf)
 	})
 }
+
+// expectedOneOf is a user-defined error cause with a slice inside (not comparable).
+type expectedOneOf struct{ opts []string }
+
+func (e expectedOneOf) Error() string { return "was expecting one of " + strings.Join(e.opts, ", ") }
 
 // userHandler is a user-supplied SeqResultHandler (copies the node window, as documented).
 var userHandler = combinator.SeqResultHandlerFunc(func(pos parsley.Pos, token string, nodes []parsley.Node, interp parsley.Interpreter) parsley.Node {
@@ -1145,8 +1154,8 @@ func panicInLibrary() bool {
 	}
 	for i := at + 2; i < len(lines); i += 2 {
 		fn := lines[i]
-		if strings.HasPrefix(fn, "runtime.") || strings.HasPrefix(fn, "runtime/") {
-			continue
+		if strings.HasPrefix(fn, "runtime.") || strings.HasPrefix(fn, "runtime/") || strings.HasPrefix(fn, "type:.") || strings.HasPrefix(fn, "type..") {
+			continue // runtime helpers and compiler-generated equality / hash functions
 		}
 		return strings.HasPrefix(fn, "github.com/opsidian/parsley/") && !strings.Contains(fn, "/zzsimrt.")
 	}
